@@ -1436,3 +1436,108 @@ Proof.
   split; [apply root_files_not_outb_sound; vm_compute; reflexivity|].
   eexists. split; [vm_compute; reflexivity|reflexivity].
 Qed.
+
+(* ---- list elements flagged as meta-parameters ---------------------------------------------- *)
+(* without flagged elements the counter of the flagged ones is irrelevant *)
+Lemma lkeys_unflagged metaf : forall l i j j',
+  forallb (fun x => negb (flagged metaf x)) l = true -> lkeys metaf i j l = lkeys metaf i j' l.
+Proof.
+  induction l as [|x l IH]; intros i j j' H; simpl in *; auto.
+  apply andb_true_iff in H. destruct H as [Hx Hl]. apply negb_true_iff in Hx. rewrite Hx.
+  f_equal. apply IH; auto.
+Qed.
+
+(* the key of every unflagged element of a list is the key it has in the list without the flagged
+   elements (what the identifier sees): dropping or inserting flagged elements moves nothing     *)
+Theorem meta_list_elements_irrelevant : forall metaf l,
+  let unflagged := fun x => negb (flagged metaf x) in
+  map fst (filter (fun kx => unflagged (snd kx)) (combine (lkeys metaf 0 0 l) l))
+  = lkeys metaf 0 0 (filter unflagged l)
+  /\ lkeys metaf 0 0 (filter unflagged l) = map dec (seq 0 (length (filter unflagged l))).
+Proof.
+  intros metaf l unflagged.
+  assert (G : forall l i j j',
+            map fst (filter (fun kx => unflagged (snd kx)) (combine (lkeys metaf i j l) l))
+            = lkeys metaf i j' (filter unflagged l)).
+  { induction l0 as [|x l0 IH]; intros i j j'; simpl; auto.
+    unfold unflagged at 1 3. destruct (flagged metaf x) eqn:Fx; simpl.
+    - unfold unflagged at 1. rewrite Fx. simpl. apply IH.
+    - unfold unflagged at 1. rewrite Fx. simpl. rewrite Fx. f_equal. apply IH. }
+  assert (K : forall l i j, forallb unflagged l = true -> lkeys metaf i j l = map dec (seq i (length l))).
+  { induction l0 as [|x l0 IH]; intros i j H; simpl in *; auto.
+    apply andb_true_iff in H. destruct H as [Hx Hl]. unfold unflagged in Hx. apply negb_true_iff in Hx.
+    rewrite Hx. f_equal. apply IH; auto. }
+  split; [apply G|]. apply K. apply forallb_forall. intros x Hx. apply filter_In in Hx. tauto.
+Qed.
+
+(* all three repairs: inside the job directory and distinct *)
+Theorem full_inside_distinct : forall decls idk metaf h gens root jd l,
+  names_wf (map (norm_node decls idk) h) -> task_targets_cut (map (norm_node decls idk) h) -> files_ok gens ->
+  generated esc_fix (seal_edges_full decls idk metaf) h gens root jd = Some l ->
+  (forall e, In e l ->
+     exists comps, comps <> [] /\ Forall (fun c => plain c = true) comps /\
+       g_path e = {| p_root := p_root jd; p_parts := p_parts jd ++ comps |}) /\
+  (forall e1 e2, In e1 l -> In e2 l ->
+     (g_node e1, g_file e1) <> (g_node e2, g_file e2) -> g_path e1 <> g_path e2).
+Proof.
+  intros decls idk metaf h gens root jd l W T F G.
+  unfold seal_edges_full in G.
+  rewrite (generated_map esc_fix (seal_edges_m metaf) (norm_node decls idk)) in G by reflexivity.
+  split.
+  - intros e He. eapply inside_jobdir; eauto. apply keys_ok_fix.
+  - intros e1 e2 H1 H2. eapply distinct; eauto.
+    + apply names_wf_unamb_m; auto. + apply esc_fix_inj. + apply keys_ok_fix.
+Qed.
+
+Theorem pretask_order_irrelevant_full : forall esc decls idk metaf h h' gens root jd,
+  heap_repre h h' -> pre_ids_distinct idk h ->
+  generated esc (seal_edges_full decls idk metaf) h gens root jd
+  = generated esc (seal_edges_full decls idk metaf) h' gens root jd.
+Proof.
+  intros esc decls idk metaf h h' gens root jd R K. apply generated_sim.
+  split; [eapply Forall2_len; eauto|].
+  intros n nd En. destruct (Forall2_nth _ _ _ R n nd En) as [nd' [En' Hn]].
+  exists nd'. split; auto. unfold seal_edges_full.
+  rewrite (norm_node_repre decls idk _ _ Hn (K nd (nth_error_In _ _ En))).
+  destruct Hn as [C [_ [_ [_ [_ S]]]]]. auto.
+Qed.
+
+Theorem assignment_order_irrelevant_full : forall esc decls idk metaf h h' gens root jd,
+  heap_reassigned h h' ->
+  generated esc (seal_edges_full decls idk metaf) h gens root jd
+  = generated esc (seal_edges_full decls idk metaf) h' gens root jd.
+Proof.
+  intros esc decls idk metaf h h' gens root jd R. apply generated_sim.
+  split; [eapply Forall2_len; eauto|].
+  intros n nd En. destruct (Forall2_nth _ _ _ R n nd En) as [nd' [En' Hn]].
+  exists nd'. split; auto. unfold seal_edges_full, norm_node.
+  rewrite (by_decl_reassigned decls _ _ Hn). destruct Hn as [C [_ [_ [_ [_ [_ S]]]]]]. auto.
+Qed.
+
+(* every element counts (the code before fixes/C17-4.diff): L(l=[m, a]) with m flagged and L(l=[a]) - one
+   identifier, one job directory - give a two different paths; with the flagged elements numbered apart
+   a keeps its path                                                                                 *)
+Definition ml_gens : list (list (str * str)) := [[]; [(s_p, s_otxt)]].
+Definition ml_heap2 : heap := [ mk 0 [(s_l, VList [VRef 1; VRef 2])] []; mk 1 [] []; mk 1 [] [] ].
+Definition ml_heap1 : heap := [ mk 0 [(s_l, VList [VRef 2])] []; mk 1 [] []; mk 1 [] [] ].
+Definition ml_metaf (n : nat) : bool := Nat.eqb n 1.
+Definition path_of (n : nat) (r : option (list entry)) : option (list ppath) :=
+  option_map (fun l => map g_path (filter (fun e => Nat.eqb (g_node e) n) l)) r.
+
+Theorem meta_list_refuted :
+  exists metaf h h' gens root jd a,
+    (* h' is h without the flagged element of the list; a is not flagged *)
+    metaf a = false /\
+    path_of a (generated esc_fix seal_edges h gens root jd) <> path_of a (generated esc_fix seal_edges h' gens root jd) /\
+    path_of a (generated esc_fix (seal_edges_m metaf) h gens root jd)
+    = path_of a (generated esc_fix (seal_edges_m metaf) h' gens root jd).
+Proof.
+  exists ml_metaf, ml_heap2, ml_heap1, ml_gens, 0%nat, ex_jd, 2%nat.
+  split; [reflexivity|]. split; [vm_compute; intros E; inversion E | vm_compute; reflexivity].
+Qed.
+
+Example ml_generated :
+  option_map (map (fun e => (g_node e, p_parts (g_path e)))) (generated esc_fix (seal_edges_m ml_metaf) ml_heap2 ml_gens 0 ex_jd)
+  = Some [ (1%nat, [[74%N; 79%N; 66%N]; k_out; s_l; meta_key 0; s_otxt]);
+           (2%nat, [[74%N; 79%N; 66%N]; k_out; s_l; dec 0; s_otxt]) ].
+Proof. vm_compute. reflexivity. Qed.
